@@ -813,6 +813,8 @@ def _outcome(sc: Scenario, d: Any, tok: str, beh: Dict[str, Any], depvals: Any, 
         sc.trace.add("task_end", d, how="return")
         if beh.get("ret_handle"):
             return _Handle(val)  # the function's return value is an object that happens to be awaitable (a handle, a future)
+        if beh.get("ret_exc"):
+            return ValueError("just a value", tok)  # an exception object as a *value* (collected, not raised)
         return val
     if out == "noresult":
         sc.trace.add("task_end", d, how="noresult")
@@ -895,8 +897,13 @@ async def _run_beh(sc: Scenario, tok: str, args: Any, kwargs: Any, depvals: Any,
 def _run_beh_sync(sc: Scenario, tok: str, args: Any, kwargs: Any, depvals: Any, echo: Any) -> Any:
     d = sc.tok_delivery.get(tok)
     beh = _beh_for(sc, tok)
+    on_loop = threading.current_thread() is threading.main_thread()
     sc.trace.add("task_start", d, tok=tok, args=safe_json(list(args)), kwargs=safe_json(kwargs),
-                 echo=echo, deps=safe_json(depvals), thread=True)
+                 echo=echo, deps=safe_json(depvals), thread=True, **({"on_loop_thread": True} if on_loop else {}))
+    if on_loop:
+        # a blocking function called on the event-loop thread: nothing else can happen in the worker meanwhile (recorded;
+        # the harness does not block the loop on top of it)
+        return _outcome(sc, d, tok, beh, depvals, echo)
     if beh.get("real_sleep"):
         _time.sleep(beh["real_sleep"])
     hold = beh.get("sync_hold")
@@ -983,6 +990,10 @@ def build_payload(sc: Scenario, broker: AsyncBroker, m: Dict[str, Any], tok: str
             b'{"task_id": "%s", "task_name": "t_async", "labels": {"a": "q"}, '
             b'"labels_types": {"a": 2}, "args": [], "kwargs": {}}' % tok.encode(),
             b"-1", b"-2", b"null", b"{}", b"00", b"true", b'"-1"', b"-1 ",
+            # well-formed JSON objects that are not messages: required parts are missing
+            b'{"task_id": "%s", "task_name": "t_async", "labels": {}, "labels_types": null}' % tok.encode(),
+            b'{"task_id": "%s", "task_name": "t_async", "labels": {}, "args": ["%s"]}' % (tok.encode(), tok.encode()),
+            b'{"task_id": "%s", "task_name": "t_sync", "labels": {"own": "%s"}, "kwargs": {}}' % (tok.encode(), tok.encode()),
         ]
         return variants[m.get("variant", 0) % len(variants)]
     labels = dict(m.get("labels", {}))
@@ -1089,11 +1100,15 @@ def run_worker(spec: Dict[str, Any], real: bool = False) -> RunResult:
             if r.get("subclass"):
                 # an application's own retry middleware: a subclass that customises nothing but its construction
                 rcls = type("AppRetryMiddleware", (SimpleRetryMiddleware,), {"tag": "app"})
-            rm = rcls(
-                default_retry_count=r.get("default_count", 3),
-                default_retry_label=r.get("default_label", False),
-                no_result_on_retry=r.get("no_result_on_retry", True),
-            )
+            if r.get("positional"):
+                # the documented order of the options: (default_retry_count, default_retry_label, no_result_on_retry)
+                rm = rcls(r.get("default_count", 3), r.get("default_label", False), r.get("no_result_on_retry", True))
+            else:
+                rm = rcls(
+                    default_retry_count=r.get("default_count", 3),
+                    default_retry_label=r.get("default_label", False),
+                    no_result_on_retry=r.get("no_result_on_retry", True),
+                )
             pos = r.get("pos", 0)
             mws.insert(min(pos, len(mws)), rm)
         if mws:
@@ -1283,7 +1298,7 @@ def run_worker(spec: Dict[str, Any], real: bool = False) -> RunResult:
             return
         receiver = MonReceiver(
             broker=broker,
-            executor=executor,
+            executor=None if cfg.get("no_executor") else executor,
             validate_params=cfg.get("validate", True),
             max_async_tasks=cfg.get("A"),
             max_prefetch=cfg.get("P", 0),
